@@ -35,7 +35,11 @@ def ambient_for(index, replay=None):
         except Exception:
             pass
         return {'hashseed': '0', 'cwd': core.VERIF, 'optimize': False, 'warnings': False}
-    return {'hashseed': str(index % 5), 'cwd': [core.VERIF, core.REPO, '/'][index % 3], 'optimize': index % 4 == 3, 'warnings': index % 4 == 1}
+    # ... and the process environment an application or an operator may have set before athlib is imported: DEBUG=1 (the switch the
+    # repository's own scripts use), a C locale with UTF-8 mode off (bundled files opened with the default encoding), debug logging
+    # configured for every logger (a guarded `if log.isEnabledFor(DEBUG)` block that does more than log)
+    return {'hashseed': str(index % 5), 'cwd': [core.VERIF, core.REPO, '/'][index % 3], 'optimize': index % 4 == 3, 'warnings': index % 4 == 1,
+            'env': [None, None, 'DEBUG=1', None, 'C-locale', None, 'debug-logging'][index % 7]}
 
 
 def run_shard(prop, tier, seed, spec, timeout, replay=None, index=0):
@@ -47,6 +51,10 @@ def run_shard(prop, tier, seed, spec, timeout, replay=None, index=0):
     env['VERIF_AMBIENT'] = json.dumps(amb)
     env['PYTHONPATH'] = core.VERIF
     env['VERIF_REPO'] = core.REPO
+    if amb.get('env') == 'DEBUG=1':
+        env['DEBUG'] = '1'
+    elif amb.get('env') == 'C-locale':
+        env.update({'LC_ALL': 'C', 'LANG': 'C', 'PYTHONUTF8': '0', 'PYTHONCOERCECLOCALE': '0'})
     cmd = ['/venv/bin/python', '-X', 'faulthandler'] + (['-O'] if amb.get('optimize') else []) + ['-m', 'vf.worker', prop, tier, str(seed), json.dumps(spec), out]
     if replay:
         cmd.append(replay)
